@@ -83,6 +83,10 @@ def catch_arg(name, ld):
             'exception': Exception,
             # "a specific type (or a list of types)"
             'list': [UserExc, ld.core.FilterException],
+            # a base class together with one of its subclasses: IndexError
+            # (a sibling of the subclass) is selected through the base class
+            'hier': [LookupError, KeyError],
+            'hier-tuple': (KeyError, LookupError, UserExc),
             # catching switched off explicitly
             'false': False}[name]
 
